@@ -50,10 +50,21 @@ Definition w_rejoin : query :=
                         IT (TField "c" (Some {| tname := "#2"; tschema := []; talias := None |}) None)]
        [SrcT tT] [(JInner, SrcT tT, JCrossCond); (JInner, SrcT tT, JCrossCond)] None None [] [] None None false None.
 
+(* a table that is literally called "sq", joined again after two tagged sub-queries: its numbered alias sq2 is also the
+   next sub-query tag (the tag is not checked against the names in use) *)
+Definition tSQ := {| tname := "sq"; tschema := []; talias := None |}.
+Definition subx (t : tref) : query := sel1 CQuery [SrcT t] [IT (TField "x" None None)] None None.
+Definition w_sqtable : query :=
+  QSel CQuery [] false [IT (TField "x" (Some {| tname := "#3"; tschema := []; talias := None |}) None);
+                        IT (TField "x" (Some {| tname := "#4"; tschema := []; talias := None |}) None)]
+       [SrcQ (subx tU); SrcQ (subx tV); SrcT tSQ]
+       [(JInner, SrcT tSQ, JCrossCond); (JInner, SrcQ (subx tT), JCrossCond)] None None [] [] None None false None.
+
 Example C10_witness_texts :
   str_query w_corr = Ok "SELECT (SELECT ""a"" FROM ""u"" LIMIT 1) FROM ""t"""
   /\ str_query w_reuse = Ok "SELECT ""sq0"".""a"",""sq0"".""a"" FROM (SELECT ""a"" FROM ""v"") ""sq0"",(SELECT ""a"" FROM ""u"") ""sq0"""
-  /\ str_query w_rejoin = Ok "SELECT ""t2"".""b"",""t2"".""c"" FROM ""t"" CROSS JOIN ""t"" ""t2"" CROSS JOIN ""t"" ""t2""".
+  /\ str_query w_rejoin = Ok "SELECT ""t2"".""b"",""t3"".""c"" FROM ""t"" CROSS JOIN ""t"" ""t2"" CROSS JOIN ""t"" ""t3"""
+  /\ str_query w_sqtable = Ok "SELECT ""sq2"".""x"",""sq2"".""x"" FROM (SELECT ""x"" FROM ""u"") ""sq0"",(SELECT ""x"" FROM ""v"") ""sq1"",""sq"" CROSS JOIN ""sq"" ""sq2"" CROSS JOIN (SELECT ""x"" FROM ""t"") ""sq2""".
 Proof. vm_compute. repeat split. Qed.
 Print Assumptions C10_witness_texts.
 
@@ -76,12 +87,27 @@ Proof.
   - vm_compute. intros H. inversion H as [|? ? Hn _]; subst. apply Hn. left. reflexivity.
 Qed.
 Print Assumptions C10_refuted_reuse.
-Theorem C10_refuted_rejoin : exists x, ~ NoDup (builder_names x) /\ source_names x = ["t"; "t2"; "t2"].
+(* REPAIRED (pypika 10401de): joining the same table again and again gives t2, t3, ...; the numbered aliases of a statement
+   are pairwise distinct and none is a name an earlier source carries — for ALL statements *)
+Theorem C10_rejoin_holds :
+  (forall nm taken, ~ In (first_free nm taken) taken)
+  /\ (forall base l taken own,
+        (forall s, In s (numbered_of (jsources l) (fst (name_joins base taken own l))) -> ~ In s taken)
+        /\ NoDup (numbered_of (jsources l) (fst (name_joins base taken own l))))
+  /\ (forall x, NoDup (name2_names x))
+  /\ source_names w_rejoin = ["t"; "t2"; "t3"] /\ name2_names w_rejoin = ["t2"; "t3"].
 Proof.
-  exists w_rejoin. split; [|reflexivity].
-  vm_compute. intros H. inversion H as [|? ? Hn _]; subst. apply Hn. left. reflexivity.
+  split; [exact first_free_fresh|]. split; [exact numbered_fresh|]. split; [exact name2_NoDup|]. vm_compute. split; reflexivity.
 Qed.
-Print Assumptions C10_refuted_rejoin.
+Print Assumptions C10_rejoin_holds.
+(* what is still false about builder-made names: a numbered table alias can equal a sub-query tag *)
+Theorem C10_refuted_numbered_vs_tag : exists x, ~ NoDup (builder_names x) /\ source_names x = ["sq0"; "sq1"; "sq"; "sq2"; "sq2"].
+Proof.
+  exists w_sqtable. split; [|reflexivity].
+  vm_compute. intros H. inversion H as [|? ? _ H1]; subst. inversion H1 as [|? ? _ H2]; subst.
+  inversion H2 as [|? ? Hn _]; subst. apply Hn. left. reflexivity.
+Qed.
+Print Assumptions C10_refuted_numbered_vs_tag.
 
 (* ---------------- what holds: everything except correlation outside WHERE and re-used / re-joined names ---------------- *)
 Definition where_of (x : query) : option item :=
@@ -105,19 +131,20 @@ Theorem C10_on_fragment :
                   = fmt_alias (join "." (map (fq (q c)) (tschema t ++ [tname t]))) (talias t) (q c) (aq c) (askw c))
   (* (5) the sq<d> names are ALWAYS pairwise distinct among themselves (any order of from_ / join calls);
      all sub-query names are distinct when no passed-in alias looks like an invented one (in particular when every
-     sub-query passed in is fresh); all builder-made names are distinct when no table is re-joined twice *)
+     sub-query passed in is fresh); the numbered table aliases are ALWAYS pairwise distinct (first_free); all builder-made
+     names are distinct when no re-joined table is called "sq..." *)
   /\ (forall h own, NoDup (invented_of (fst (run_hist own h))))
   /\ (forall x, NoDup (invented_names x))
   /\ (forall x, NoDup (given_sub_names x) -> forallb (fun s => negb (sq_prefixed s)) (given_sub_names x) = true ->
                 NoDup (subquery_names x))
   /\ (forall x, given_sub_names x = [] -> NoDup (subquery_names x))
-  /\ (forall x, NoDup (name2_names x) -> forallb (fun s => negb (sq_prefixed s)) (name2_names x) = true ->
-                NoDup (builder_names x)).
+  /\ (forall x, NoDup (name2_names x))
+  /\ (forall x, forallb (fun s => negb (sq_prefixed s)) (name2_names x) = true -> NoDup (builder_names x)).
 Proof.
   split; [exact rquery_stoks|]. split; [exact stoks_rule|]. split; [exact scope_gt1_wns|].
   split; [exact foreign_where_wns|]. split; [exact schema_chain_outermost_first|]. split; [exact table_sql_chain|].
   split; [exact invented_NoDup_hist|]. split; [exact invented_NoDup|]. split; [exact subquery_names_NoDup|].
-  split; [exact fresh_subqueries_NoDup|]. exact builder_names_NoDup.
+  split; [exact fresh_subqueries_NoDup|]. split; [exact name2_NoDup|]. exact builder_names_NoDup.
 Qed.
 Print Assumptions C10_on_fragment.
 
@@ -192,9 +219,11 @@ Proof.
 Qed.
 Print Assumptions C10_items.
 
-(* Query.v's own naming functions are the history run "every from_() first, then the joins" *)
-Theorem C10_names_are_history : forall base from joins,
-  fst (stmt_names base from joins) ++ snd (stmt_names base from joins) = map fst (fst (run_hist 0 (stmt_hist base from joins))).
+(* Query.v's own naming functions give the sub-query / set-operation sources the names of the history run
+   "every from_() first, then the joins" *)
+Theorem C10_names_are_history : forall base tk from joins,
+  sub_only from (fst (stmt_names base tk from joins)) ++ sub_only (jsources joins) (snd (stmt_names base tk from joins))
+  = sub_names_hist (fst (run_hist 0 (stmt_hist from joins))).
 Proof. exact stmt_names_hist. Qed.
 Print Assumptions C10_names_are_history.
 
